@@ -89,6 +89,11 @@ def gen_inputs(key, r):
     if base == 'maketoeplitzCIJ':
         nn = int(r.randint(4, 9))
         return dict(n=nn, k=int(r.randint(2, 2 * nn)), s=float(r.choice([1., 1.5, 2.5])), seed=Scripted((), fallback_seed=int(r.randint(1 << 30)), max_draws=4000000))
+    if base == 'modularity_louvain_und_sign':
+        Wm = _und(r, n + int(r.randint(0, 4)), signed=True, p=float(r.choice([.4, .6, .9])))
+        if r.random_sample() < .15:
+            Wm = np.abs(Wm)          # no negative weights at all (s1 = 0 adjustment)
+        return dict(W=Wm, gamma=float(r.choice([.8, 1., 1.3])), qtype=str(r.choice(['sta', 'pos', 'smp', 'gja', 'neg'])), seed=Scripted((), fallback_seed=int(r.randint(1 << 30)), max_draws=200000))
     if base == 'modularity_louvain_und':
         Wm = _und(r, n + int(r.randint(0, 4)), p=float(r.choice([.3, .5, .8])))
         if Wm.sum() <= 0:
